@@ -16,7 +16,9 @@ CONSTANTS
   LeafSet <- MC_LeafSet_Q
   LimVals <- MC_LimVals
   LitPool <- MC_LitPool
+  QuotedIdents <- MC_QuotedIdents
   StrLits <- MC_StrLits
+  TrickyStrs <- MC_TrickyStrs
   MaxDefs = 4
   MaxGroup = 3
   MaxItems = 3
